@@ -58,7 +58,7 @@ pub fn expand_sched(s: &[(u8, u8)]) -> Vec<u8> {
     v
 }
 
-fn top_strategy(producers_only: bool) -> BoxedStrategy<TOp> {
+pub fn top_strategy(producers_only: bool) -> BoxedStrategy<TOp> {
     let t = any::<u16>();
     let len = prop_oneof![4 => 0u16..600, 1 => 600u16..6000];
     if producers_only {
@@ -126,7 +126,7 @@ pub struct ConcOutcome {
 }
 
 /// Concrete thread programs (ops with sequence numbers) of a case.
-fn concrete_threads(case: &ConcCase, nt: usize, seq0: u64) -> (Vec<Vec<Op>>, u64) {
+pub fn concrete_threads(case: &ConcCase, nt: usize, seq0: u64) -> (Vec<Vec<Op>>, u64) {
     let mut seq = seq0;
     let mut out = Vec::new();
     for prog in &case.threads {
